@@ -217,7 +217,9 @@ def flux_variability_analysis(
                     UserWarning,
                 )
             with model:
-                add_pfba(model, fraction_of_optimum=0)
+                # The old objective is already constrained above; use the same
+                # fraction here so that no stricter requirement is added.
+                add_pfba(model, fraction_of_optimum=fraction_of_optimum)
                 ub = model.slim_optimize(error_value=None)
                 flux_sum = prob.Variable("flux_sum", ub=pfba_factor * ub)
                 flux_sum_constraint = prob.Constraint(
